@@ -129,11 +129,15 @@ class RateLimiter:
         while True:
             await asyncio.sleep(300)  # Clean every 5 minutes
 
+            # Only forget idle buckets that have refilled completely: a forgotten
+            # bucket starts full again, which must not hand out extra allowance
             now = time.monotonic()
             to_remove = [
                 ip
                 for ip, bucket in self.buckets.items()
                 if now - bucket.last_update > 600  # 10 minutes idle
+                and bucket.tokens + (now - bucket.last_update) * bucket.refill_rate
+                >= bucket.capacity
             ]
 
             for ip in to_remove:
